@@ -76,7 +76,7 @@ pub fn run(ctx: &Ctx) -> Value {
     tw.emit(ev("d.fromstd", json!({"secs": big(u64::MAX as i128), "nanos": big(999_999_999)}), || json!({"r": od(TimeDelta::from_std(std::time::Duration::MAX).ok())})));
     // binary on lattice pairs
     let ks: Vec<i32> = vec![0, 1, -1, 2, -2, 3, -3, 7, -7, 1000, -1000, 86_400, i32::MIN, i32::MIN + 1, i32::MAX - 1, i32::MAX];
-    let pairs = ctx.t(7_000, 300_000);
+    let pairs = ctx.t(20_000, 300_000);
     for i in 0..pairs {
         let a = *rng.pick(&lat);
         let b = *rng.pick(&lat);
@@ -142,7 +142,7 @@ pub fn run(ctx: &Ctx) -> Value {
     #[allow(deprecated)]
     tw.emit(ev("d.const", json!({"via": "deprecated aliases"}), || json!({"min": dur(TimeDelta::min_value()), "max": dur(TimeDelta::max_value()), "zero": dur(TimeDelta::default())})));
     // sessions: operator chains on a register; the trace spec checks the range invariant in every state
-    let sessions = ctx.t(600, 30_000);
+    let sessions = ctx.t(1_500, 30_000);
     for _ in 0..sessions {
         let mut acc = *rng.pick(&lat);
         if tw.room() < 12 { tw.roll(); }          // a session never spans two chunks (the register is per chunk)
